@@ -294,7 +294,12 @@ def particle_number_measurement(
 
     if shots is None:
         if marginal_sampling:
-            probabilities = state.get_marginal_fock_probabilities(modes=modes)
+            # NOTE: The modes of the instruction are indexed among the modes which are
+            # not yet measured, but the marginal probabilities are indexed among all
+            # the modes of the state.
+            probabilities = state.get_marginal_fock_probabilities(
+                modes=map_to_original_modes(modes, postselected_modes)
+            )
 
             return [
                 Branch(
